@@ -255,8 +255,14 @@ def run(ctx):
             between_by_paths(ctx, facts, host, vecp, cmp_key, op, cfg, env=henv)
         # ---------------- K2
         mats = {}
+        cviews = {}
         for op, f in comparators.items():
-            m = comparator_matrix(ctx, facts, roles, f, s2n, op, cfg)
+            # the comparator as one function: the private helpers it hands its operands to (a shared method
+            # parameterised by the operator, a truth table over an Ordering) inlined — to-primitive and the
+            # string→number conversion stay calls, the clauses are stated on their results
+            vfacts, vf = comparator_view(facts, f, s2n)
+            cviews[op] = vf
+            m = comparator_matrix(ctx, vfacts, roles, vf, s2n, op, cfg)
             mats[op] = m
         # ---------------- K3
         from . import strnum as _SN
@@ -265,7 +271,7 @@ def run(ctx):
         ctx.need(tps, "number-hint conversion (&Value → Option<f64> without local calls, reachable from the comparators) not found")
         ctx.check(len(tps) == 1, "K3.to-primitive-shared", "one number-hint conversion feeds the comparisons (%s)" % cfg,
                   "several value → Option<f64> conversions are reachable from the comparators: %s — each must obey the table, and to-primitive may use only one" % [t_.key.split("::", 1)[1] for t_ in tps], where=tps[0].where(), fn=tps[0].key, nontrivial=True)
-        to_primitive_composition(ctx, facts, roles, comparators, tps[0], cfg)
+        to_primitive_composition(ctx, facts, roles, cviews, tps[0], cfg)
         for tp in tps:
             # read off the path summaries of the function (rules/pathsum.py): for each kind of the argument, every path's
             # result — independent of how the arms are written (merged arms, literal patterns, if/else on the payload)
@@ -488,7 +494,13 @@ def to_primitive_composition(ctx, facts, roles, comparators, tpn, cfg):
         if hint_args and strip_refs(e) == ("arg", hint_args[0]):
             return "Number"
         return None
-    cases = optnorm.decision_cases(facts, tp, known=known)
+    # read through the private helpers to-primitive calls (a predicate on the hint, say) — but not through the two
+    # functions the clause is about: the number-hint conversion and the string form stay calls in the cases
+    from . import x_ipath
+    keep = {tpn.key} | ({strf.key} if strf is not None else set())
+    cases = x_ipath.decision_cases(facts, tp, lambda c: c.get("key") not in keep, known=known)
+    if cases is None:
+        cases = optnorm.decision_cases(facts, tp, known=known)
     ctx.need(cases is not None, "to-primitive has loops or too many paths to summarise")
     val_arg = [l for l in range(1, tp.arg_count + 1) if tp.local_ty(l).endswith("serde_json::Value")]
     ctx.need(len(val_arg) == 1, "to-primitive's value parameter not identified")
@@ -530,6 +542,20 @@ def to_primitive_number(facts, roles, comparators):
             if it.get("output") == "std::option::Option<f64>" and it.get("inputs") == ["&serde_json::Value"] and facts.body(k) and not any(callee_of(t) and callee_of(t)["local"] for _, t in facts.body(k).calls()):
                 cands.add(k)
     return [facts.body(k) for k in sorted(cands)]
+
+
+def comparator_view(facts, f, s2n):
+    """(facts, body) of the comparator with the private helpers it reaches inlined at their call sites (rules/inline.py,
+    as pairs._view) when the to-primitive conversions are not made in the comparator's own body; the to-primitive
+    function(s) and the string→number conversion are never inlined."""
+    prim = [t for _, t in f.calls() if callee_of(t) and callee_of(t)["local"] and "Primitive" in facts.items.get(callee_of(t)["key"], {}).get("output", "")]
+    if len(prim) == 2:
+        return facts, f
+    stop = {k for k in facts.reach([f.key]) if "Primitive" in facts.items.get(k, {}).get("output", "")} | {s2n.key}
+    from .pairs import _view
+    v = _view(facts, f, stop)
+    fv = v.body(f.key)
+    return (v, fv) if fv is not None else (facts, f)
 
 
 def comparator_matrix(ctx, facts, roles, f, s2n, op, cfg):
@@ -672,8 +698,67 @@ def comparator_matrix(ctx, facts, roles, f, s2n, op, cfg):
         for bi, si, st in bb.stmts():
             if st["k"] == "Assign" and st["rv"]["k"] == "BinaryOp" and st["rv"]["op"] in ("Lt", "Le", "Gt", "Ge", "Eq", "Ne", "Cmp") and re.match(r"^[iu](64|128)$", st["rv"].get("opty") or "") and (_int_reading(bb, st["rv"]["a"]) or _int_reading(bb, st["rv"]["b"])):
                 ctx.fail("K2.numeric-domain", "%s|%s" % (op, bk.split("::", 1)[1]), "the comparator for %s orders JSON numbers by their 64-bit integer readings (%s on %s): operands must be compared as the doubles they convert to" % (op, st["rv"]["op"], st["rv"]["opty"]), where=bb.where(bi, si), fn=bb.key)
-    groups = {}
+    # a case keyed by the state of an Option *combinator chain* (`str_to_number(s).and_then(|n| f.partial_cmp(&n))` asked
+    # for None / Some(Less) …) is restated on the chain's sources (rules/optnorm.py src_cases: the state of the
+    # string→number conversion, the outcome of the comparison inside the closure), so that it reads like the same
+    # decision written with nested matches
+    extra_exprs = {}
+    COMB = re.compile(r"^std::option::Option::<T>::(and_then|map|filter|or_else|or|zip|xor)$")
+
+    def chain_of(ex):
+        X, inner = strip_refs(ex), False
+        if X[0] == "payload":
+            X, inner = strip_refs(X[2]), True
+        if X[0] == "field" and isinstance(X[1], tuple) and X[1][0] == "downcast" and X[1][2] == "Some":
+            X, inner = strip_refs(X[1][1]), True
+        if X[0] == "call" and X[1] and COMB.match(X[1].get("path") or ""):
+            return X, inner
+        return None, False
+
+    def atom_expr(k):
+        ex_ = extra_exprs.get(k)
+        if ex_ is None:
+            ex_ = (cases.exprs or {}).get(k)
+        if ex_ is None:
+            ex_ = optnorm.SRC_EXPRS.get(k)
+        return ex_
+    restated = []
     for conds, v, p in cases:
+        chains = {}
+        for k, val in conds.items():
+            if k[0] != "variant" or atom_expr(k) is None:
+                continue
+            E, inner = chain_of(atom_expr(k))
+            if E is not None:
+                ent = chains.setdefault(pathsum.canon(E), {"E": E, "opt": None, "ord": None, "keys": []})
+                ent["ord" if inner else "opt"] = val
+                ent["keys"].append(k)
+        sc = None
+        if len(chains) == 1:
+            ent = next(iter(chains.values()))
+            sc = optnorm.src_cases(facts, ent["E"], "opt")
+        if not sc:
+            restated.append((conds, v, p))
+            continue
+        tag = "None" if ent["opt"] == "None" else "Some"
+        base = {k: val for k, val in conds.items() if k not in ent["keys"]}
+        for c2, t2, payload in sc:
+            if t2 != tag:
+                continue
+            nc, feasible = dict(base), True
+            for k2, v2 in c2:
+                if k2 in nc and nc[k2] != v2:
+                    feasible = False
+                nc[k2] = v2
+            if not feasible:
+                continue
+            if tag == "Some" and ent["ord"] is not None:
+                pk = ("variant", "ordering of " + pathsum.canon(strip_refs(payload)))
+                extra_exprs[pk] = payload
+                nc[pk] = ent["ord"]
+            restated.append((nc, v, p))
+    groups = {}
+    for conds, v, p in restated:
         kinds = {}
         conv = {}
         for k, val in conds.items():
@@ -688,9 +773,7 @@ def comparator_matrix(ctx, facts, roles, f, s2n, op, cfg):
         for k, val in conds.items():
             if k[0] != "variant":
                 continue
-            ex_ = (cases.exprs or {}).get(k)
-            if ex_ is None:
-                ex_ = optnorm.SRC_EXPRS.get(k)
+            ex_ = atom_expr(k)
             if ex_ is None:
                 continue
             rel = ord_source(ex_)
